@@ -127,11 +127,37 @@ pub fn list(v: &[String], sep: &str) -> String {
     if v.is_empty() { "-".into() } else { v.join(sep) }
 }
 
-/// A ROA delta against a state; entries are drawn from a per-case pool so that
-/// collisions (duplicates, remove+add, twins with implicit/explicit max length) are common.
+fn res_of(h: &str) -> rpki::repository::resources::ResourceSet {
+    crate::tok::parse_res(h).expect("preset")
+}
+
+/// A payload that is valid and held under `h` (falls back to anything after a few tries).
+fn good_payload(r: &mut Rng, h: &str) -> String {
+    let res = res_of(h);
+    for _ in 0..40 {
+        let p = payload(r, false);
+        if let Some(x) = crate::tok::parse_payload(&p) {
+            let own_family = match x.prefix {
+                krill::api::roa::TypedPrefix::V4(_) => res.ipv4().contains_roa(&x.as_roa_ip_address()),
+                krill::api::roa::TypedPrefix::V6(_) => res.ipv6().contains_roa(&x.as_roa_ip_address()),
+            };
+            if x.max_length_valid() && own_family {
+                return p;
+            }
+        }
+    }
+    payload(r, true)
+}
+
+/// A ROA delta against a state; mostly acceptable, with every kind of bad entry mixed in at
+/// a low rate; entries are drawn from a per-case pool so that collisions (duplicates inside
+/// the delta, remove+add, twins with implicit/explicit max length) are common.
 pub fn roa_case(r: &mut Rng) -> String {
+    let h = *r.pick(RES);
+    let h = if h == "||" && r.chance(3, 4) { RES[1] } else { h };
     let npool = r.range(2, 7) as usize;
-    let mut pool: Vec<String> = (0..npool).map(|_| payload(r, true)).collect();
+    let mut pool: Vec<String> =
+        (0..npool).map(|_| if r.chance(5, 6) { good_payload(r, h) } else { payload(r, true) }).collect();
     // twins: same prefix/asn with implicit vs explicit max length
     if r.chance(1, 2) {
         let t = pool[0].clone();
@@ -153,31 +179,76 @@ pub fn roa_case(r: &mut Rng) -> String {
             state.push(format!("{p}#{}", comment(r)));
         }
     }
-    let na = r.range(0, 6) as usize;
-    let added: Vec<String> = (0..na).map(|_| format!("{}#{}", pick(r, &pool), comment(r))).collect();
-    let nr = r.range(0, 4) as usize;
-    let removed: Vec<String> = (0..nr).map(|_| pick(r, &pool)).collect();
+    let mode = r.below(10); // 0..=5: clean delta, 6..=9: anything goes
+    let nr = r.range(0, 3) as usize;
+    let mut removed: Vec<String> = Vec::new();
+    for _ in 0..nr {
+        if mode <= 5 || r.chance(2, 3) {
+            // something that is configured and not yet removed
+            let cands: Vec<String> = state
+                .iter()
+                .map(|c| c.split_once('#').unwrap().0.to_string())
+                .filter(|p| !removed.contains(p))
+                .collect();
+            if !cands.is_empty() {
+                removed.push(cands[r.below(cands.len() as u64) as usize].clone());
+            }
+        } else {
+            removed.push(pick(r, &pool));
+        }
+    }
+    let na = r.range(0, 5) as usize;
+    let mut added: Vec<String> = Vec::new();
+    for _ in 0..na {
+        if mode <= 5 {
+            // fresh payload, or a comment change of a configured one
+            if !state.is_empty() && r.chance(1, 4) {
+                let c = r.pick(&state).clone();
+                let (p, old) = c.split_once('#').unwrap();
+                if removed.iter().any(|x| x == p) || added.iter().any(|a: &String| a.starts_with(p)) {
+                    continue;
+                }
+                let new = if old == "-" { "cnew" } else { "-" };
+                added.push(format!("{p}#{new}"));
+            } else {
+                let p = good_payload(r, h);
+                if state.iter().any(|c| c.starts_with(&p)) || added.iter().any(|a| a.starts_with(&p)) {
+                    continue;
+                }
+                added.push(format!("{p}#{}", comment(r)));
+            }
+        } else {
+            added.push(format!("{}#{}", pick(r, &pool), comment(r)));
+        }
+    }
     format!(
         "roa h={} S={} A={} R={} n={}",
-        r.pick(RES),
+        h,
         list(&state, ","),
         list(&added, ","),
         list(&removed, ","),
-        r.below(2)
+        if r.chance(2, 3) { 1 } else { 0 }
     )
 }
 
-fn providers(r: &mut Rng, customer: u32) -> String {
-    let n = r.range(0, 4);
-    let v: Vec<String> = (0..n)
-        .map(|_| match r.below(8) {
-            0 => customer,
+fn providers(r: &mut Rng, customer: u32, clean: bool) -> String {
+    let n = r.range(if clean { 1 } else { 0 }, 4);
+    let mut v: Vec<u32> = Vec::new();
+    for _ in 0..n {
+        let x = match r.below(8) {
+            0 if !clean => customer,
             1 => 0,
             n => n as u32,
-        })
-        .map(|x| x.to_string())
-        .collect();
-    v.join("+")
+        };
+        if clean && (v.contains(&x) || x == customer) {
+            continue;
+        }
+        v.push(x);
+    }
+    if clean && v.is_empty() {
+        v.push(customer.wrapping_add(1));
+    }
+    v.iter().map(|x| x.to_string()).collect::<Vec<_>>().join("+")
 }
 
 const CUSTOMERS: &[u32] = &[64496, 64497, 64498, 65000, 0];
@@ -196,30 +267,66 @@ fn aspa_state(r: &mut Rng) -> Vec<String> {
     state
 }
 
+/// Resource presets that hold some AS numbers.
+const RES_ASN: &[&str] = &[
+    "AS64496-AS64497|10.0.0.0/8|2001:db8::/32",
+    "AS0-AS4294967295|0.0.0.0/0|::/0",
+    "AS64496-AS64498|10.0.0.0-10.0.1.255|2001:db8::/48,2001:db8:1::/48",
+    "AS64496,AS64498|10.0.0.0/24,10.0.2.0/23|2001:db8::/32",
+    "AS64497||a00::/8",
+    "||",
+];
+
 pub fn aspa_case(r: &mut Rng) -> String {
     let state = aspa_state(r);
+    let clean = r.chance(2, 3);
+    let h = *r.pick(RES_ASN);
+    let res = res_of(h);
     let na = r.range(0, 3);
-    let add: Vec<String> = (0..na)
-        .map(|_| {
-            let c = *r.pick(CUSTOMERS);
-            format!("{c}>{}", providers(r, c))
-        })
-        .collect();
+    let mut add: Vec<String> = Vec::new();
+    for _ in 0..na {
+        let mut c = *r.pick(CUSTOMERS);
+        if clean {
+            for _ in 0..8 {
+                if res.contains_asn(rpki::repository::resources::Asn::from_u32(c)) {
+                    break;
+                }
+                c = *r.pick(CUSTOMERS);
+            }
+        }
+        add.push(format!("{c}>{}", providers(r, c, clean)));
+    }
     let nr = r.range(0, 2);
-    let rem: Vec<String> = (0..nr).map(|_| r.pick(CUSTOMERS).to_string()).collect();
-    format!("aspa h={} S={} A={} R={}", r.pick(RES), list(&state, ","), list(&add, ","), list(&rem, ","))
+    let mut rem: Vec<String> = Vec::new();
+    for _ in 0..nr {
+        if clean {
+            let cands: Vec<String> =
+                state.iter().map(|d| d.split_once('>').unwrap().0.to_string()).filter(|c| !rem.contains(c)).collect();
+            if !cands.is_empty() {
+                rem.push(cands[r.below(cands.len() as u64) as usize].clone());
+            }
+        } else {
+            rem.push(r.pick(CUSTOMERS).to_string());
+        }
+    }
+    format!("aspa h={} S={} A={} R={}", h, list(&state, ","), list(&add, ","), list(&rem, ","))
 }
 
 pub fn aspax_case(r: &mut Rng) -> String {
     let state = aspa_state(r);
     let c = *r.pick(CUSTOMERS);
-    format!("aspax h={} S={} C={} U={}|{}", r.pick(RES), list(&state, ","), c, providers(r, c), providers(r, c))
+    let clean = r.chance(1, 2);
+    let rm = if r.chance(1, 2) { providers(r, c, false) } else { String::new() };
+    format!("aspax h={} S={} C={} U={}|{}", r.pick(RES_ASN), list(&state, ","), c, providers(r, c, clean), rm)
 }
 
 /// csr pool: 9 entries (3 keys × {valid, valid, invalid}).
 pub fn bgpsec_case(r: &mut Rng) -> String {
     let asns = [64496u32, 64497, 65000];
     let valid = [0usize, 1, 3, 4, 6, 7];
+    let h = *r.pick(RES_ASN);
+    let res = res_of(h);
+    let clean = r.chance(2, 3);
     let mut state = Vec::new();
     let mut seen = std::collections::HashSet::new();
     for _ in 0..r.range(0, 3) {
@@ -229,27 +336,70 @@ pub fn bgpsec_case(r: &mut Rng) -> String {
             state.push(format!("{a}.{c}"));
         }
     }
-    let add: Vec<String> = (0..r.range(0, 3)).map(|_| format!("{}.{}", r.pick(&asns), r.below(9))).collect();
-    let rem: Vec<String> = (0..r.range(0, 2)).map(|_| format!("{}.{}", r.pick(&asns), r.below(3))).collect();
-    format!("bgpsec h={} S={} A={} R={}", r.pick(RES), list(&state, ","), list(&add, ","), list(&rem, ","))
+    let mut add: Vec<String> = Vec::new();
+    for _ in 0..r.range(0, 3) {
+        if clean {
+            let mut a = *r.pick(&asns);
+            for _ in 0..8 {
+                if res.contains_asn(rpki::repository::resources::Asn::from_u32(a)) {
+                    break;
+                }
+                a = *r.pick(&asns);
+            }
+            add.push(format!("{a}.{}", r.pick(&valid)));
+        } else {
+            add.push(format!("{}.{}", r.pick(&asns), r.below(9)));
+        }
+    }
+    let mut rem: Vec<String> = Vec::new();
+    for _ in 0..r.range(0, 2) {
+        if clean {
+            let cands: Vec<String> = state
+                .iter()
+                .map(|s| {
+                    let (a, c) = s.split_once('.').unwrap();
+                    format!("{a}.{}", c.parse::<usize>().unwrap() / 3)
+                })
+                .filter(|k| !rem.contains(k))
+                .collect();
+            if !cands.is_empty() {
+                rem.push(cands[r.below(cands.len() as u64) as usize].clone());
+            }
+        } else {
+            rem.push(format!("{}.{}", r.pick(&asns), r.below(3)));
+        }
+    }
+    format!("bgpsec h={} S={} A={} R={}", h, list(&state, ","), list(&add, ","), list(&rem, ","))
 }
+
+/// Resource presets ordered so that later ones tend to be contained in `RES[3]` (everything).
+const CHILD_RES: &[&str] = &[
+    "AS64496|10.0.0.0/16|",
+    "|10.0.0.0/24|",
+    "AS64496-AS64497|10.0.0.0/8|2001:db8::/32",
+    "||2001:db8::/48",
+    "||",
+    "AS64497||a00::/8",
+    "|10.0.0.0/9,10.128.0.0/9|",
+];
 
 pub fn child_case(r: &mut Rng) -> String {
     let names = ["a", "b", "c"];
     let mut children = Vec::new();
     for n in names {
-        if r.chance(1, 3) {
-            children.push(format!("{n}~{}~{}", r.below(3), r.pick(RES)));
+        if r.chance(1, 2) {
+            children.push(format!("{n}~{}~{}", r.below(3), r.pick(CHILD_RES)));
         }
     }
     let kind = *r.pick(&["childadd", "childupd", "childupd", "childid"]);
+    let h = if r.chance(2, 3) { RES[3] } else { *r.pick(RES) };
     format!(
         "{kind} h={} C={} N={} I={} r={}",
-        r.pick(RES),
+        h,
         list(&children, ";"),
         r.pick(&names),
         r.below(3),
-        r.pick(RES)
+        if r.chance(3, 4) { *r.pick(CHILD_RES) } else { *r.pick(RES) }
     )
 }
 
@@ -263,14 +413,47 @@ pub fn ann(r: &mut Rng, allow_as0: bool) -> String {
     format!("{}@{}", prefix_tok(p), a)
 }
 
+/// Resource presets for the analyser: mostly ones that hold the generated prefixes.
+const ANA_RES: &[&str] = &[
+    "AS64496-AS64497|10.0.0.0/8|2001:db8::/32",
+    "AS64496-AS64497|10.0.0.0/8|2001:db8::/32",
+    "AS0-AS4294967295|0.0.0.0/0|::/0",
+    "AS0-AS4294967295|0.0.0.0/0|::/0",
+    "|10.0.0.0/9,10.128.0.0/9|",
+    "AS64496-AS64498|10.0.0.0-10.0.1.255|2001:db8::/48,2001:db8:1::/48",
+    "AS64496|10.0.0.0/16,192.168.0.0/16|",
+    "|10.0.0.0/8|",
+    "||::/0",
+    "AS64497||a00::/8",
+    "||",
+];
+
 pub fn ana_case(r: &mut Rng, allow_panic_shape: bool) -> String {
     let nd = r.range(0, 14);
-    let data: Vec<String> = (0..nd).map(|_| ann(r, true)).collect();
+    let mut data: Vec<String> = (0..nd).map(|_| ann(r, true)).collect();
     let nr = r.range(0, 7);
     let mut roas: Vec<String> = Vec::new();
+    // a ROA with room below it and announcements at exactly its max length
+    if r.chance(1, 4) {
+        let f = fam(r);
+        let p = prefix(r, f);
+        let bits: u32 = if f == 4 { 32 } else { 128 };
+        let len = p.2 as u32;
+        if len + 1 <= bits && !(f == 6 && len == 0) {
+            let ml = (len + r.range(1, 2) as u32).min(bits);
+            let a = asn(r).max(1);
+            roas.push(format!("{}-{}@{}#-", prefix_tok(p), ml, a));
+            let subs = 1u128 << (ml - len);
+            let count = if r.chance(1, 3) { subs.min(4) } else { r.range(1, 2) as u128 };
+            for i in 0..count {
+                let addr = p.1 | (i << (bits - ml));
+                data.push(format!("{f}:{addr}/{ml}@{a}"));
+            }
+        }
+    }
     for _ in 0..nr {
         // ROAs often mirror an announcement
-        let p = if !data.is_empty() && r.chance(1, 2) {
+        let p = if !data.is_empty() && r.chance(2, 3) {
             let a = r.pick(&data).clone();
             let (pfx, asn) = a.rsplit_once('@').unwrap();
             let ml = match r.below(4) {
@@ -279,7 +462,7 @@ pub fn ana_case(r: &mut Rng, allow_panic_shape: bool) -> String {
                 _ => {
                     let bits = if pfx.starts_with('4') { 32 } else { 128 };
                     let len: u64 = pfx.rsplit_once('/').unwrap().1.parse().unwrap();
-                    r.range(len, bits).to_string()
+                    r.range(len, (len + 3).min(bits)).to_string()
                 }
             };
             let asn = if r.chance(1, 5) { "0".to_string() } else if r.chance(1, 5) { "64497".into() } else { asn.to_string() };
@@ -296,9 +479,9 @@ pub fn ana_case(r: &mut Rng, allow_panic_shape: bool) -> String {
         let d = roas[0].clone();
         roas.push(d);
     }
-    let limit = if r.chance(1, 3) { r.pick(RES).to_string() } else { "_".into() };
-    let d = if r.chance(1, 20) { "_".to_string() } else { list(&data, ",") };
-    format!("ana h={} l={} D={} R={}", r.pick(RES), limit, d, list(&roas, ","))
+    let limit = if r.chance(1, 4) { r.pick(ANA_RES).to_string() } else { "_".into() };
+    let d = if r.chance(1, 25) { "_".to_string() } else { list(&data, ",") };
+    format!("ana h={} l={} D={} R={}", r.pick(ANA_RES), limit, d, list(&roas, ","))
 }
 
 pub fn msp_case(r: &mut Rng) -> String {
@@ -335,7 +518,7 @@ pub fn aggkey_case(r: &mut Rng) -> String {
     for _ in 0..n {
         s.push_str(parts[r.below(parts.len() as u64) as usize]);
     }
-    format!("aggkey {}", hex::encode(s.as_bytes()))
+    format!("aggkey x{}", hex::encode(s.as_bytes()))
 }
 
 /// All `(family, len, maxlen)` combinations: `mlv` and `nsp` (2 × … cases).
